@@ -31,13 +31,13 @@ for c in configs:
         owner_file.setdefault(owner_qual(P, f), f['loc'].rsplit(':', 1)[0])
         owner_file.setdefault(f['qual'], f['loc'].rsplit(':', 1)[0])
     cc = condition_inventory(P, files)
-    ci[c] = {k: dict(v, __file__=owner_file.get(k, '?')) for k, v in cc.items()}
+    ci[c] = {fl: {k: {'n': n, 'fns': condition_inventory.hints[fl][k]} for k, n in d.items()} for fl, d in cc.items()}
     mm = mustpass_inventory(P, files)
     mi[c] = {k: {'file': owner_file.get(k, '?'), 'callees': v} for k, v in mm.items()}
     ww = wiring_inventory(P, files)
-    wi[c] = {k: dict(v, __file__=owner_file.get(k, '?')) for k, v in ww.items()}
-    print(c, 'wirings', sum(len(v) - 1 for v in wi[c].values()))
-    print(c, 'conditions', sum(len(v) - 1 for v in ci[c].values()), 'must-pass callees', sum(len(v['callees']) for v in mi[c].values()))
+    wi[c] = {fl: {k: {'n': n, 'fns': wiring_inventory.hints[fl][k]} for k, n in d.items()} for fl, d in ww.items()}
+    print(c, 'wirings', sum(len(v) for v in wi[c].values()))
+    print(c, 'conditions', sum(len(v) for v in ci[c].values()), 'must-pass callees', sum(len(v['callees']) for v in mi[c].values()))
     print(c, 'functions with guards', len(gi[c]), 'guards', sum(sum(v.values()) for v in gi[c].values()),
           'functions constructing errors', len(ei[c]), 'constructions', sum(len(v) for v in ei[c].values()))
 os.makedirs(TABLES, exist_ok=True)
